@@ -219,6 +219,55 @@ def _has_quantifier(t):
     return False
 
 
+def _symbols(t, cache):
+    """names of the uninterpreted symbols of a term"""
+    k = t.get_id()
+    if k in cache:
+        return cache[k]
+    out, seen, todo = set(), set(), [t]
+    while todo:
+        x = todo.pop()
+        xi = x.get_id()
+        if xi in seen:
+            continue
+        seen.add(xi)
+        if z3.is_quantifier(x):
+            todo.append(x.body())
+            continue
+        if z3.is_app(x):
+            d = x.decl()
+            if d.kind() == z3.Z3_OP_UNINTERPRETED:
+                out.add(d.name())
+            todo.extend(x.children())
+    cache[k] = out
+    return out
+
+
+def relevant_hyps(hyps, goal, k):
+    """the k hypotheses that share the rarest symbols with the goal (score: sum of 1/frequency over shared symbols),
+    closed once under the symbols they bring in, plus all quantifier-free ones that share a symbol"""
+    cache = {}
+    hs = [h for h in hyps if z3.is_expr(h)]
+    syms = [_symbols(h, cache) for h in hs]
+    freq = {}
+    for ss in syms:
+        for x in ss:
+            freq[x] = freq.get(x, 0) + 1
+    g = set(_symbols(goal, cache))
+
+    def score(ss, base):
+        return sum(1.0 / freq[x] for x in ss & base)
+    order = sorted(range(len(hs)), key=lambda j: -score(syms[j], g))
+    pick = [j for j in order[:k] if score(syms[j], g) > 0]
+    base2 = set(g)
+    for j in pick:
+        base2 |= syms[j]
+    rest = [j for j in order if j not in pick and score(syms[j], base2) > 0]
+    pick += rest[:k]
+    pick_set = set(pick)
+    return [hs[j] for j in range(len(hs)) if j in pick_set]
+
+
 def _solve(i):
     """portfolio: several cheap configurations with a short budget each (measured: every obligation of this project that is
     provable at all is proved in < 1 s by at least one of them), then the long runs; `unsat` from any configuration counts
@@ -243,12 +292,62 @@ def _solve(i):
         return i, "PROVED", "syntactic (goal is a hypothesis)", time.time() - t0, model, reason
     neg = z3.Not(ob.goal)
     short = min(timeout_s, 4)
+    nh0 = getattr(ob, "n_hints", 0)
+    if nh0:
+        # a clause that comes with proved hints: the hints alone usually carry the proof (milliseconds)
+        try:
+            hs0 = list(ob.hyps[-nh0:])
+            s0, r0 = _check(hs0, [neg], 1)
+            if r0 == z3.unsat:
+                return i, "PROVED", f"z3(hints + 0 of {len(ob.hyps) - nh0} hypotheses)", time.time() - t0, model, reason
+            sk0, extra0 = instantiate_hints(hs0, neg, rounds=1, wide=False)
+            s0, r0 = _check(abstract_closed_quantifiers(hs0 + list(sk0) + extra0), [], 1, NOMBQI)
+            if r0 == z3.unsat:
+                return i, "PROVED", f"z3+hints(hints + 0 of {len(ob.hyps) - nh0} hypotheses)", time.time() - t0, model, reason
+        except Exception as ex:  # pragma: no cover
+            reason += f" | hints-first: {ex}"
     s, r = _check(ob.hyps, [neg], short)
     if r == z3.unknown:
         reason = s.reason_unknown()
         s1, r1 = _check(ob.hyps, [neg], short, NOMBQI)
         if r1 == z3.unsat:
             return i, "PROVED", "z3(e-matching)", time.time() - t0, model, reason
+        # relevance filter: fewer hypotheses is sound; irrelevant quantified hypotheses are what drowns the solver
+        try:
+            nh = getattr(ob, "n_hints", 0)
+            if nh:
+                # the contract's own hints are the intended proof: try them alone, then with the most relevant other hypotheses
+                hs_ = list(ob.hyps[-nh:])
+                for more in (0, 4, 8):
+                    sel = hs_ + (relevant_hyps(ob.hyps[:-nh], ob.goal, more) if more else [])
+                    for opts in (None, NOMBQI):
+                        s3, r3 = _check(sel, [neg], min(short, 2), opts)
+                        if r3 == z3.unsat:
+                            return i, "PROVED", f"z3(hints + {len(sel) - nh} of {len(ob.hyps) - nh} hypotheses)", time.time() - t0, model, reason
+                    sk, extra = instantiate_hints(sel, neg, rounds=1, wide=False)
+                    s3, r3 = _check(abstract_closed_quantifiers(list(sel) + list(sk) + extra), [], min(short, 2), NOMBQI)
+                    if r3 == z3.unsat:
+                        return i, "PROVED", f"z3+hints(hints + {len(sel) - nh} of {len(ob.hyps) - nh} hypotheses)", time.time() - t0, model, reason
+            for k_ in (4, 8, 16):
+                sel = relevant_hyps(ob.hyps, ob.goal, k_)
+                if len(sel) >= len(ob.hyps):
+                    break
+                for opts in (None, NOMBQI):
+                    s3, r3 = _check(sel, [neg], min(short, 3), opts)
+                    if r3 == z3.unsat:
+                        return i, "PROVED", f"z3(relevant hypotheses: {len(sel)} of {len(ob.hyps)})", time.time() - t0, model, reason
+            # the same subsets with the goal skolemised and the one-variable hypotheses instantiated at the skolem terms
+            for k_ in (6, 12):
+                sel = relevant_hyps(ob.hyps, ob.goal, k_)
+                if len(sel) >= len(ob.hyps):
+                    break
+                sk, extra = instantiate_hints(sel, neg, rounds=1, wide=False)
+                for opts in (NOMBQI, None):
+                    s3, r3 = _check(abstract_closed_quantifiers(list(sel) + list(sk) + extra), [], min(short, 3), opts)
+                    if r3 == z3.unsat:
+                        return i, "PROVED", f"z3+hints(relevant hypotheses: {len(sel)} of {len(ob.hyps)})", time.time() - t0, model, reason
+        except Exception as ex:  # pragma: no cover
+            reason += f" | relevance: {ex}"
         hints = {}
         for tag, rounds, wide, opts in (("z3+hints(e-matching)", 1, False, NOMBQI), ("z3+hints", 1, False, None),
                                         ("z3+hints2(e-matching)", 2, True, NOMBQI), ("z3+hints2", 2, True, None)):
